@@ -172,4 +172,18 @@ example : checkOK (applyAll r0 [.savePack 20 [b2], .saveSnap 22 { key := 2, tree
 example : accept_backup r0 [.saveIndex 21 [(20, [b2])], .savePack 20 [b2]] = false := by decide
 example : checkOK (applyAll r0 [.saveIndex 21 [(20, [b2])]]) = false := by decide
 
+/-! the transcribed writer on a concrete plan: two packs, the uploader pool interleaves them, the
+index is "full" after the first, flush saves the rest, then the snapshot -/
+open Restic.Proofs.Writer in
+example : backupRun [⟨20, [b2], true, 21⟩, ⟨30, [⟨0, 13, 0, 7⟩], false, 31⟩]
+    [(0, false), (1, false), (0, false), (0, false), (1, false), (1, false)] 40 false 22
+    { key := 2, tree := 12, orig := none, needs := [(1, 12), (0, 13), (0, 11)] } false
+  = [.savePack 20 [b2], .savePack 30 [⟨0, 13, 0, 7⟩], .saveIndex 21 [(20, [b2])], .saveIndex 40 [(30, [⟨0, 13, 0, 7⟩])],
+     .saveSnap 22 { key := 2, tree := 12, orig := none, needs := [(1, 12), (0, 13), (0, 11)] }] := by decide
+-- the upload of the second pack fails: no flush, no snapshot
+example : backupRun [⟨20, [b2], true, 21⟩, ⟨30, [⟨0, 13, 0, 7⟩], false, 31⟩]
+    [(0, false), (1, true), (0, false), (0, false)] 40 false 22
+    { key := 2, tree := 12, orig := none, needs := [(1, 12)] } false
+  = [.savePack 20 [b2], .saveIndex 21 [(20, [b2])]] := by decide
+
 end Restic.Props.C11
